@@ -63,6 +63,24 @@ theorem pipelineX_eq_spec (db : Db) : ∀ (p : List Val) (docs s : List Val),
         simp only [runPipeline, runStage_single, runOp_simple db op opts docs hne, h1]
         exact pipelineX_eq_spec db rest out s hD.2 hs
 
+theorem pipelineXV_eq_spec (db : Db) (p docs : List Val) (v : Verdict)
+    (hD : pipelineReasonsXV db p docs = []) (hs : specPipelineXV db p docs = some v) :
+    v.agrees (runPipeline db p docs) := by
+  unfold specPipelineXV at hs
+  unfold pipelineReasonsXV at hD
+  split at hs
+  · rename_i hr
+    cases hs
+    exact runPipeline_rejected db p docs hr
+  · rename_i hr
+    simp only [hr] at hD
+    cases hsp : specPipelineX db p docs with
+    | none => simp [hsp] at hs
+    | some s =>
+      simp only [hsp, Option.map_some, Option.some.injEq] at hs
+      subst hs
+      exact pipelineX_eq_spec db p docs s hD hsp
+
 theorem facetBranches_eq_spec (db : Db) : ∀ (gs : Fields) (docs : List Val) (fs : Fields),
     facetReasons db gs docs = [] → specFacet db gs docs = some fs →
     facetBranches db gs docs = .ok fs
